@@ -63,6 +63,14 @@ func init() {
 		Assume: []string{"Go's select among ready cases is not owned: the one packet whose read was in progress at cancellation may or may not be delivered, both are accepted", "the 1000-slot channel is never filled (runs have at most 300 steps)"}}
 }
 
+func init() {
+	props["C20"] = PropDef{Level: "exploration", QuickS: 40, ThoroughS: 600,
+		Units: []Unit{{Name: "reader", Pkg: "./props/reader", Sim: "c20", Share: 1}},
+		Rule: "one evaluation = one run inside a testing/synctest bubble: an assembler-side actor delivers a seeded script (0-4 batches of 0-3 Reassembly elements with empty slices, skips, -1 skip, then completion, scribbling over each batch after its call returns) and a consumer actor reads with seeded buffer sizes (0,1,2,3,7,64,1500) and closes at a seeded point (before any read, between or inside batches, after EOF, twice); the controller picks which side moves; non-trivial = a gap, empty slice/batch or early close fired; distinct = distinct event-log fingerprints among non-trivial runs",
+		RealStub: "real: tcpreader.ReaderStream (Reassembled, ReassemblyComplete, Read, Close, its two channels); stub: assembler side (script) and consumer",
+		Assume: []string{"one consumer goroutine uses the reader (Read and Close are not called concurrently)", "the assembler calls ReassemblyComplete only after its last Reassembled call returned"}}
+}
+
 var probeNames = map[string][]string{
 	"c09":     {"stream_crosses_wrap", "wrap_inside_delivery", "flush_forced_skip", "limit_forced_skip", "syn_overtaken_by_data", "gap_announced", "delivery_without_start", "kept_bytes_presented", "multi_page_with_saved"},
 	"c11r":    {"flush_forced_skip", "limit_forced_skip"},
